@@ -3,5 +3,5 @@ CONSTANTS
   Defects = {"RemoveBeforeAdd"}
   Big = FALSE
 SPECIFICATION Spec
-INVARIANTS HdrImplIsSem HdrLevelOrder HdrVarResolved PathImplIsSem PrefixWins PathRuleSwapsWholePath HostImplIsSem RedirImplIsSem PfcImplIsSem TmoImplIsSem TryBelowGlobal
+INVARIANTS HdrImplIsSem HdrLevelOrder OmittedAppends HdrVarResolved PathImplIsSem PrefixWins PathRuleSwapsWholePath HostImplIsSem RedirImplIsSem PfcImplIsSem TmoImplIsSem TryBelowGlobal
 CHECK_DEADLOCK FALSE
